@@ -9,6 +9,8 @@ d = os.path.join("/verif/seeded", sid)
 os.makedirs(d, exist_ok=True)
 shutil.copy(bug, os.path.join(d, "patch.diff"))
 shutil.copy(demo, os.path.join(d, "demo" + os.path.splitext(demo)[1] if not demo.endswith(".demo.patch") else os.path.join(d, "demo.patch")))
+for extra in os.environ.get("DEMO_EXTRA_FILES", "").split():
+    shutil.copy(extra, d)
 conf = json.load(open(confirm))
 meta = {"id": sid, "property": prop, "what": what, "needs_to_manifest": needs,
         "confirmed_by_me": {k: conf.get(k) for k in ("confirmed", "suite_passes_with_change", "demo_fails_with_change", "demo_passes_without_change")},
